@@ -21,6 +21,7 @@ type FuncInfo struct {
 }
 
 type SpecFunc struct {
+	Bool   bool // ghost function of boolean sort
 	Name   string
 	Params []string
 	Body   ast.Expr
@@ -141,6 +142,19 @@ func LoadProgram(repo string, patterns ...string) (*Program, error) {
 			}
 		}
 	})
+	for _, k := range p.Order {
+		c := p.Contracts[k]
+		if c.Vec != nil {
+			func() {
+				defer func() {
+					if r := recover(); r != nil {
+						errs = append(errs, fmt.Sprint(r))
+					}
+				}()
+				expandVecKernel(c)
+			}()
+		}
+	}
 	if len(errs) > 0 {
 		sort.Strings(errs)
 		return p, fmt.Errorf("load errors:\n  %s", strings.Join(errs, "\n  "))
@@ -156,6 +170,22 @@ func (p *Program) parseSpecFuncs(fset *token.FileSet, f *ast.File, pkgPath strin
 				continue
 			}
 			text := strings.TrimSpace(strings.TrimPrefix(c.Text, "//@"))
+			if strings.HasPrefix(text, "ghost ") {
+				f := strings.Fields(strings.TrimSpace(text[6:]))
+				head := strings.Join(f[:len(f)-1], " ")
+				he, err := parser.ParseExpr(head)
+				call, ok := he.(*ast.CallExpr)
+				if err != nil || !ok {
+					*errs = append(*errs, "bad ghost line: "+text)
+					continue
+				}
+				sf := &SpecFunc{Name: call.Fun.(*ast.Ident).Name, Bool: f[len(f)-1] == "bool"}
+				for _, a := range call.Args {
+					sf.Params = append(sf.Params, a.(*ast.Ident).Name)
+				}
+				p.SpecFuncs[pkgPath+"."+sf.Name] = sf
+				continue
+			}
 			if !strings.HasPrefix(text, "spec ") {
 				continue
 			}
